@@ -344,8 +344,9 @@ func (s *Server) keepaliveHandler(ctx context.Context) {
 	}
 }
 
-func (s *Server) NewClientConn(conn io.ReadWriteCloser, remoteAddr string) *ClientConn {
-	clientConn := &ClientConn{
+// newClientConn returns a ClientConn that is not yet registered with the client manager.
+func (s *Server) newClientConn(conn io.ReadWriteCloser, remoteAddr string) *ClientConn {
+	return &ClientConn{
 		Icon:       []byte{0, 0}, // TODO: make array type
 		Connection: conn,
 		Server:     s,
@@ -353,6 +354,10 @@ func (s *Server) NewClientConn(conn io.ReadWriteCloser, remoteAddr string) *Clie
 
 		ClientFileTransferMgr: NewClientFileTransferMgr(),
 	}
+}
+
+func (s *Server) NewClientConn(conn io.ReadWriteCloser, remoteAddr string) *ClientConn {
+	clientConn := s.newClientConn(conn, remoteAddr)
 
 	s.ClientMgr.Add(clientConn)
 
@@ -412,8 +417,9 @@ func (s *Server) handleNewConnection(ctx context.Context, rwc io.ReadWriteCloser
 		return fmt.Errorf("error writing login transaction: %w", err)
 	}
 
-	c := s.NewClientConn(rwc, remoteAddr)
-	defer c.Disconnect()
+	// The connection is registered with the client manager only once it has authenticated, so that a failed login
+	// attempt never shows up in the user list and is never announced to the logged-in users as a departure.
+	c := s.newClientConn(rwc, remoteAddr)
 
 	encodedPassword := clientLogin.GetField(FieldUserPassword).Data
 	c.Version = clientLogin.GetField(FieldVersion).Data
@@ -447,6 +453,9 @@ func (s *Server) handleNewConnection(ctx context.Context, rwc io.ReadWriteCloser
 	if c.Account == nil {
 		return nil
 	}
+
+	s.ClientMgr.Add(c)
+	defer c.Disconnect()
 
 	if clientLogin.GetField(FieldUserName).Data != nil {
 		if c.Authorize(AccessAnyName) {
